@@ -70,7 +70,9 @@ MD_VALUES = progs.MD_VALUES
 MAX_NODES = 260
 MUT_OPS = [["noop", "B"], ["not"], ["divmod"], ["mktup", ["B", "I"]], ["untup", ["B", "B", "Q"]],
            ["tag", 1, ["sum", [["B"], []]]], ["custom", "mut.op", ["B"], ["I", "I"], "a description"],
-           ["const", ["true"]], ["const", ["int", 5, 7]], ["const", ["tuple", [["true"], ["false"]]]]]
+           ["const", ["true"]], ["const", ["int", 5, 7]], ["const", ["tuple", [["true"], ["false"]]]],
+           # required-but-nullable schema fields: CustomConst.v = null, BoundedNatParam.bound = null (also nested)
+           ["const", ["extnull"]], ["funcdecl", "poly.nat", "nat"], ["funcdecl", "poly.list", "listnat"]]
 
 
 def usable_seed(seed, root=None):
@@ -91,8 +93,16 @@ HIST_ROOTS = [["module"], ["module"], ["dfg", ["B"], ["B"]], ["case", [], ["I"]]
 def mk_mut_op(spec):
     from hugr import ops
     k = spec[0]
+    if k == "const" and spec[1][0] == "extnull":
+        from hugr import tys, val
+        return ops.Const(val.Extension("ConstNothing", tys.Unit, None, ["verif.ext"]))
     if k == "const":
         return ops.Const(progs.mk_val(spec[1]))
+    if k == "funcdecl":
+        from hugr import tys
+        params = {"nat": [tys.TypeTypeParam(tys.TypeBound.Any), tys.BoundedNatParam()],
+                  "listnat": [tys.ListParam(tys.BoundedNatParam()), tys.TupleParam([tys.BoundedNatParam(), tys.BoundedNatParam(3)])]}[spec[2]]
+        return ops.FuncDecl(spec[1], tys.PolyFuncType(params, tys.FunctionType([tys.Bool], [tys.Bool])))
     if k == "dfg":
         return ops.DFG([progs.mk_ty(t) for t in spec[1]], [progs.mk_ty(t) for t in spec[2]])
     if k == "case":
@@ -170,6 +180,20 @@ def named_program(name):
                               type_params=[tys.TypeTypeParam(tys.TypeBound.Any)])
         f.set_outputs(*f.inputs())
         return m.hugr
+    if name == "poly_nat_unbounded":           # seeded C02-c: BoundedNatParam.bound = null is a required schema field
+        m = Module()
+        f = m.define_function("idn", [tys.Bool], [tys.Bool],
+                              type_params=[tys.TypeTypeParam(tys.TypeBound.Any), tys.BoundedNatParam()])
+        f.set_outputs(*f.inputs())
+        m.declare_function("ext", tys.PolyFuncType([tys.ListParam(tys.BoundedNatParam())], tys.FunctionType.empty()))
+        g = m.define_function("id8", [tys.Bool], [tys.Bool], type_params=[tys.BoundedNatParam(8)])
+        g.set_outputs(*g.inputs())
+        return m.hugr
+    if name == "ext_const_null":               # seeded C02-c: CustomConst.v = null is a required schema field
+        h = Hugr()
+        h.add_const(val.Extension("ConstNothing", tys.Unit, None, ["my_ext"]))
+        h.add_const(val.Extension("ConstSomething", tys.Unit, {"a": None, "b": [None, 0]}, ["my_ext"]))
+        return h
     if name == "custom_desc":                  # D10: description of an extension operation
         d = Dfg(tys.Bool)
         (b,) = d.inputs()
@@ -843,6 +867,10 @@ class RT(fw.Prop):
             P("bool_id", [["add_order", 1, 2]]),
             # D8-D10: operation attributes
             P("poly_func"), P("custom_desc"), P("cfg_delta"),
+            # required schema fields that legitimately hold null must be written (seeded C02-c: to_json with exclude_none)
+            P("poly_nat_unbounded"), P("ext_const_null"),
+            {"kind": "hist", "root": ["module"], "muts": [["add_node", ["funcdecl", "poly.list", "listnat"], 0, None, None],
+                                                          ["add_node", ["const", ["extnull"]], 0, {"k": None}, None]]},
             # D3 (known): index reuse puts a child before its parent / siblings out of index order
             P("nested_after_const", [["delete_node", 3], ["add_node", ["const", ["true"]], 4, None, None]]),
             P("two_consts", [["delete_node", 1], ["add_node", ["const", ["true"]], 0, None, None]]),
